@@ -32,7 +32,7 @@ EXPLANATION = (
 )
 
 MANIFEST = {
-    "technique": "static analysis: object-state substitution + abstract interpretation over canonical terms, compared with a specification term (polynomial differences are definite; other spellings are searched for a counterexample on a finite grid of image sizes); sibling clone agreement; parity/format rule; per-mode mask premises shared with C15; per-mode buffer layout classified by the library's own dtype table (shared with C15)",
+    "technique": "static analysis: object-state substitution + abstract interpretation over canonical terms, compared with a specification term (polynomial differences are definite; other spellings are searched for a counterexample on a finite grid of image sizes); sibling clone agreement; parity/format rule; per-mode mask premises shared with C15; per-mode buffer layout classified by the library's own dtype table (shared with C15); data handed to the array writers of Image.save is the image's own array (value-preserving views only)",
     "text": "Decides that the tiling arithmetic (count, generated rectangles, slices, offsets, sub-image geometry) is term-equal to the documented specification for plain and sub-image tilings and both vertical parities. Does not execute any tiling.",
     "note": "Trusted: Python integer //, max, min, range, slice semantics; numpy slicing. Not decided: the specification itself partitions the image (a paper argument in DESIGN.md); codec round trips.",
 }
